@@ -115,6 +115,8 @@ def hard_bits(bl, pat):
         b = bytearray([1]) * bl
         b[pat[1]] = 0
         return bytes(b)
+    if k == "raw":              # explicit content, hex of one octet per bit
+        return bytes.fromhex(pat[1])
     raise ValueError("not a hard-bit pattern: %r" % (pat,))
 
 
@@ -131,6 +133,8 @@ def soft_bits(bl, pat):
         s = [0] * bl
         s[pat[1]] = pat[2]
         return s
+    if k == "raw":              # explicit content, hex of one two's-complement octet per soft bit
+        return [b - 256 if b > 127 else b for b in bytes.fromhex(pat[1])]
     return [(-127 if b else 127) for b in hard_bits(bl, pat)]
 
 
@@ -489,3 +493,58 @@ def rule(tier):
            "modulation at (legacy off, set 0, TSC 0, TN 0) and (legacy on, highest set, TSC 7, TN 7); the ToA sweep at one of "
            "these two corners per modulation)",
            "at every point that carries a burst" if t else "at the 24 representative points that carry a burst"))
+
+
+# ---------------------------------------------------------------------------------------------
+# in-place edits of ONE message object between two encodes (history legs of C01 / C04)
+
+def _raw(cls, vals):
+    return ["raw", bytes(vals).hex() if cls == "tx" else bytes(v & 0xff for v in vals).hex()]
+
+
+def inplace_plan(c):
+    """Successive in-place edits applied to ONE toolkit object that was built for case c and has encoded it once.
+    Yields (label, op, new_case): op = ("elem", index, value) -> obj.burst[index] = value (container not replaced),
+    ("slice", values) -> obj.burst[:] = values, ("attr", name, value) -> setattr(obj, name, value); new_case is the
+    valid message the object describes after the edit (edits accumulate)."""
+    cls = c["cls"]
+    cur = dict(c, grp="inplace")
+    if c["bl"] is not None:
+        bl = c["bl"]
+        vals = list(burst_values(c))
+        for label, i in (("burst-first", 0), ("burst-middle", bl // 2), ("burst-last", bl - 1)):
+            vals[i] = (vals[i] ^ 1) if cls == "tx" else (-vals[i] if vals[i] else 1)
+            cur = dict(cur, burst=_raw(cls, vals))
+            yield label, ("elem", i, vals[i]), cur
+        vals = list(hard_bits(bl, ("alt1",))) if cls == "tx" else soft_bits(bl, ("rampdown",))
+        cur = dict(cur, burst=_raw(cls, vals))
+        yield "burst-slice", ("slice", vals), cur
+    edits = [("fn", "fn", (c["fn"] + 1) % HYPER), ("tn", "tn", (c["tn"] + 1) % 8)]
+    if cls == "tx":
+        edits.append(("pwr", "pwr", (c["pwr"] + 1) % 256))
+    else:
+        edits.append(("rssi", "rssi", -120 + (c["rssi"] + 120 + 1) % 74))
+        edits.append(("toa", "toa256", -c["toa"] - 1))
+        if c["ver"] == 1:
+            edits.append(("ci", "ci", -c["ci"] if c["ci"] else 1))
+            if not c["nope"]:
+                edits.append(("tsc", "tsc", (c["tsc"] + 1) % 8))
+                edits.append(("tsc_set", "tsc_set", c["tsc_set"] ^ 1))
+    for field, attr, v in edits:
+        cur = dict(cur)
+        cur[field] = v
+        yield attr, ("attr", attr, v), cur
+
+
+def apply_inplace(obj, op):
+    if op[0] == "elem":
+        obj.burst[op[1]] = op[2]
+    elif op[0] == "slice":
+        obj.burst[:] = bytes(op[1]) if isinstance(obj.burst, (bytes, bytearray)) else array(obj.burst.typecode, op[1])
+    else:
+        setattr(obj, op[1], op[2])
+
+
+def inplace_here(chunk, i):
+    """in-place visits: every case of a base chunk, every 64th of a burst-pattern chunk, every 256th of a sweep"""
+    return i % (1 if chunk[0] == "base" else (64 if chunk[0] == "burst" else 256)) == 0
